@@ -400,10 +400,11 @@ def site_of(e):
 
 def root_cause(e):
     """The field-level exception behind a construction error (Structure.__init__ chains it)."""
-    seen = 0
-    while e.__cause__ is not None and seen < 5:
-        e = e.__cause__
-        seen += 1
+    # one level: `raise e.__class__(f"{cls_name}.{e}") from e`.  What the field's own raise statement is chained
+    # to in turn (`raise ValueError(...) from ex` inside a validator) is not the field-level exception.
+    c = e.__cause__
+    if c is not None and str(e).endswith("." + str(c)):
+        return c
     return e
 
 
